@@ -118,8 +118,8 @@ class WatermarkPoolSink(PoolSink):
       sink = self._sink_provider.CreateSink(self._properties)
       # TODO: we could get a better failure case here by detecting that Open()
       # failed and retrying, however for now the simplest option is to just fail.
-      sink.Open().wait()
       sink.on_faulted.Subscribe(self.__PropagateShutdown)
+      sink.Open().wait()
       return sink
     else:
       if len(self._waiters) + 1 > self._max_queue_size:
@@ -190,6 +190,9 @@ class WatermarkPoolSink(PoolSink):
   def _OpenImpl(self):
     sink = self._Get()
     self._Release(sink)
+    if self._state == ChannelState.Closed:
+      # The sink failed to open and _Release shut the pool down.
+      raise ServiceClosedError('Unable to open a sink to %s' % self.endpoint)
     self._state = ChannelState.Open
 
   def _FlushCache(self):
